@@ -2,8 +2,9 @@
 (* Constants for Lookup.tla: the pools and bounds of each tier.  A mode is  *)
 (* one enumeration: a pool of cell values, a tuple of lookup values, the    *)
 (* longest vector, the most blanks at either end, and w = 0 (export MATCH   *)
-(* and INDEX on the vector) or the width of the table whose key column the  *)
-(* vector is (export VLOOKUP/HLOOKUP/LOOKUP/INDEX).                         *)
+(* and INDEX on the vector) or the width 1..4 of the table whose key column  *)
+(* the vector is (export VLOOKUP/HLOOKUP/LOOKUP/INDEX); width 1 with a       *)
+(* vector of one cell is the 1 x 1 table.                                    *)
 EXTENDS Lookup
 
 S0  == Txt(<<>>)                 \* ""
@@ -43,18 +44,19 @@ Mode(pool, look, maxlen, maxz, srt, w) ==
 
 \* quick tier, exhaustive: every vector up to length 3 (wide pool) / 4,
 \* every SORTED vector (ascending or descending) up to length 5 over a
-\* 9-value pool, tables up to 4 x 3
+\* 9-value pool, tables from 1 x 1 up to 4 x 3
 QuickModes == << Mode(Wide,   LookAll, 3, 1, FALSE, 0),
                  Mode(Medium, LookAll, 4, 2, FALSE, 0),
                  Mode(Neutr,  LookAll, 4, 1, FALSE, 0),
                  Mode(Sorted, LookAll, 5, 1, TRUE,  0),
                  Mode(TblKey, LookTbl, 4, 1, FALSE, 2),
-                 Mode(TblKey, LookTbl, 4, 1, FALSE, 3) >>
+                 Mode(TblKey, LookTbl, 4, 1, FALSE, 3),
+                 Mode(TblKey, LookTbl, 4, 1, FALSE, 1) >>
 
 \* thorough tier, exhaustive part: every vector up to length 4 (10 values),
 \* 6 (4 values), 5 (neutral values), 8 (one value per type); every sorted
 \* vector up to length 6 (9 values) and 8 (6 values); tables 4 x 2, 5 x 3
-\* and 6 x 4
+\* and 6 x 4, and the one-column tables 1 x 1 .. 6 x 1
 BigModes == << Mode(Wide \ {Sab, SA}, LookAll, 4, 1, FALSE, 0),
                Mode({Num(-2), Num(1), Sa, Tr}, LookAll, 6, 2, FALSE, 0),
                Mode(Neutr \ {Err("#N/A")}, LookAll, 5, 1, FALSE, 0),
@@ -63,7 +65,8 @@ BigModes == << Mode(Wide \ {Sab, SA}, LookAll, 4, 1, FALSE, 0),
                Mode({Num(-2), Num(1), Sa, SA, Fa, Tr}, LookAll, 8, 1, TRUE, 0),
                Mode(TblKey \ {Sb}, LookTbl, 4, 1, FALSE, 2),
                Mode(TblKey \ {Sb}, LookTbl, 5, 1, FALSE, 3),
-               Mode(TblKey \ {Sb}, LookTbl, 6, 1, FALSE, 4) >>
+               Mode(TblKey \ {Sb}, LookTbl, 6, 1, FALSE, 4),
+               Mode(TblKey, LookTbl, 6, 1, FALSE, 1) >>
 
 \* thorough tier, random part (tlc -simulate): any order, the wide pool up
 \* to length 8, and wide-pool tables 6 x 4 -- beyond what is exhaustive
